@@ -59,12 +59,15 @@ type invite struct {
 	live      bool
 	createdAt int // record index
 	revokedAt int // record index of the revoke, -1 while live
+	revokedPos      int  // position (record*100 + content index) of the revoke
+	revokedComposed bool // revoked by a hand-signed (composed) record: only content order is demanded there
 }
 
 type gen struct {
 	recId string
 	key   crypto.SymKey
 	at    int // index of the record that introduced it (0 = root)
+	pos   int // record*100 + index of the introducing content within the record
 }
 
 // one asymmetric ciphertext published in the raw log
@@ -97,6 +100,10 @@ type hist struct {
 
 	// shadow of the membership history, derived from the meaning of the operations issued
 	perm       []list.AclPermissions
+	lostPos    []int // like lostAt, as a position record*100 + content index (a content later in the same record comes after)
+	pendKeys   []crypto.SymKey
+	ci         int   // index of the content being interpreted by commit()
+	composed   bool  // the record being interpreted was hand-signed by the harness
 	lostAt     []int // index of the record after which the account holds no permission (-1: never admitted); meaningful while perm == none
 	pendJoin   map[int]string
 	pendRemove map[int]string
@@ -135,6 +142,7 @@ func newHist(r *corr.Run, id, nAcc int) *hist {
 		h.accProto = append(h.accProto, must(k.SignKey.GetPublic().Marshall()))
 		h.perm = append(h.perm, pNone)
 		h.lostAt = append(h.lostAt, -1)
+		h.lostPos = append(h.lostPos, -1)
 	}
 	return h
 }
@@ -153,14 +161,19 @@ func (h *hist) wrap(rec *consensusproto.RawRecord) *consensusproto.RawRecordWith
 }
 
 func (h *hist) buildView(acc *accountdata.AccountKeys, client bool) (l list.AclList, err error) {
+	return h.buildViewFrom(h.raw, acc, client)
+}
+
+// buildViewFrom builds a fresh AclList of the account from the given raw log.
+func (h *hist) buildViewFrom(raws []*consensusproto.RawRecordWithId, acc *accountdata.AccountKeys, client bool) (l list.AclList, err error) {
 	defer func() {
 		if p := recover(); p != nil {
 			err = fmt.Errorf("panic: %v", p)
 		}
 	}()
-	cp := make([]*consensusproto.RawRecordWithId, len(h.raw))
-	copy(cp, h.raw)
-	st, err := list.NewInMemoryStorage(h.raw[0].Id, cp)
+	cp := make([]*consensusproto.RawRecordWithId, len(raws))
+	copy(cp, raws)
+	st, err := list.NewInMemoryStorage(raws[0].Id, cp)
 	if err != nil {
 		return nil, err
 	}
